@@ -799,7 +799,7 @@ pub fn structure_fault(schema: &MapSchema, root: &V, rng: &mut Rng) -> (V, Struc
                     _ => 64,
                 };
                 // ASCII prefix so that a 2/3/4-byte character starts at cap-3 .. cap
-                let lead = cap.saturating_sub(rng.usize_below(5));
+                let lead = (cap + 2).saturating_sub(rng.usize_below(9));
                 let mut b = vec![b'a'; lead];
                 let ch = ["é", "€", "😀"][rng.usize_below(3)];
                 for _ in 0..1 + rng.usize_below(40) {
